@@ -29,6 +29,7 @@ def scenarios(seed, n, prop="c15"):
               "release_plan": [rng.choice([0, 1, 1, 2, -1]) for _ in range(rng.randrange(0, 30))], "tag": "trace:%d" % k}
         if prop == "c17" and rng.random() < 0.4:
             sc["reconnect_limit"] = rng.choice([0, 1, 3])
+            sc["post_idle"] = 6       # let the reconnect attempts run out (or the device come back) before the run ends
         if rng.random() < ploss:
             sc["triggers"] = [[rng.choice(["after_write", "after_report"]), rng.randrange(1, 10), "lose"]]
             sc["auto_return"] = rng.choice([0.5, 1.5])
